@@ -15,7 +15,7 @@ thread_local! {
 
 fn check(s: &[u8], rep: &mut Report) -> u32 {
     rep.evaluations += 1;
-    let prev: Vec<u8> = PREVIOUS.with(|p| std::mem::replace(&mut *p.borrow_mut(), if s.len() <= 4096 { s.to_vec() } else { vec![] }));
+    let prev: Vec<u8> = PREVIOUS.try_with(|p| std::mem::replace(&mut *p.borrow_mut(), if s.len() <= 4096 { s.to_vec() } else { vec![] })).unwrap_or_default();
     let replay = || json!({"kind": "h2p", "input": if s.len() <= 4096 { hex(s) } else { format!("len:{}", s.len()) }, "hashed_just_before": hex(&prev)});
     let (w1024, tr) = spec::hash_to_point_traced(s, 1024);
     let (_, tr512) = spec::hash_to_point_traced(s, 512);
@@ -146,6 +146,34 @@ pub fn differential(ctx: &Ctx, rep: &mut Report) {
         }
     });
     rep.merge(r);
+    // HashToPoint while a thread is being torn down (see C13), on threads that did / did not hash before
+    let r = par_for(ctx.sz(48, 600), ncpu(), |ti, rep| {
+        let mut rng = rng_for(ctx.seed, &format!("c14-teardown-{}", ti));
+        let len = [0usize, 1, 42, 136, 200, 1000][ti % 6];
+        let inp = rand_bytes(&mut rng, len);
+        let warm = ti % 2 == 0;
+        let res = crate::util::run_at_thread_exit(
+            move || {
+                if warm {
+                    let _ = vh::hash_to_point(b"warm", 512);
+                }
+            },
+            move || {
+                let mut rep = Report::new();
+                check(&inp, &mut rep);
+                rep.violations.first().map(|v| format!("{}: {}", v.signature, v.detail))
+            },
+        );
+        rep.evaluations += 1;
+        match res {
+            Ok(None) => rep.count("hashes_during_thread_exit", 1),
+            Ok(Some(what)) => rep.violation("h2p:wrong-during-thread-exit", what, json!({"kind": "teardown", "ti": ti})),
+            Err(e) if e.contains("did not run") => rep.inconclusive(e),
+            Err(e) => rep.violation("panic:h2p-during-thread-exit", e, json!({"kind": "teardown", "ti": ti})),
+        }
+    });
+    rep.merge(r);
+    rep.require("hashes_during_thread_exit", 20);
     rep.require("fingerprint_colliding_pairs", 12);
     rep.require("collide_siphash-write-lo32", 1);
     rep.require("collide_siphash-hash-lo32", 1);
